@@ -52,8 +52,8 @@ theorem mem_sortBy {α : Type} (le : α → α → Bool) (l : List α) (y : α) 
 
 /-! ### `early` is untouched by every operation of `Op` -/
 
-theorem cache_early (s : State) (m : Nat) (cid : Option Nat) : (cache s m cid).early = s.early := by
-  unfold cache; cases cid <;> rfl
+theorem cache_early (s : State) (m : Nat) (cid : Option Nat) : (cache s m cid).early = s.early :=
+  cache_early' s m cid
 
 theorem dropStale_early (s : State) (m : Nat) (old new : Option Nat) : (dropStale s m old new).early = s.early := by
   unfold dropStale
@@ -119,7 +119,7 @@ theorem step_early (s : State) (op : Op) : (step s op).1.early = s.early := by
       simp only [renew]
       split
       · rfl
-      · simp only [cache_early, dropStale_early]
+      · simp only [(recache_rest _ _ _ _).2.2.2.2.1]
   | term t => exact term_early t s
   | tick n => rfl
   | gap o inner =>
@@ -234,11 +234,11 @@ theorem nd_step {s : State} (h : ND s) (op : Op) : ND (step s op).1 := by
       split
       · exact h
       · refine ⟨?_, ?_⟩
-        · show NodupKeys (cache (dropStale _ m l.cid _) m _).leases
-          rw [(cache_rest _ _ _).2.2.2.1, (dropStale_rest _ _ _ _).2.2.2.1]
+        · show NodupKeys (recache _ m l.cid _).leases
+          rw [(recache_rest _ _ _ _).2.1]
           exact nodupKeys_insert h.1 _ _
-        · show NodupKeys (cache (dropStale _ m l.cid _) m _).acct
-          rw [(cache_rest _ _ _).2.2.2.2.2.2.2.1, (dropStale_rest _ _ _ _).2.2.2.2.2.2.2.1]
+        · show NodupKeys (recache _ m l.cid _).acct
+          rw [(recache_rest _ _ _ _).2.2.1]
           exact h.2
   | term t => exact nd_term h t
   | tick n => exact h
@@ -267,9 +267,8 @@ theorem nd_step {s : State} (h : ND s) (op : Op) : ND (step s op).1 := by
   | shutdown => exact h
   | fault w on =>
     simp only [step, setFault]
-    split
-    · exact h
-    · split <;> exact h
+    repeat' split
+    all_goals exact h
 
 /-! ### the invariant on the model -/
 
@@ -458,7 +457,12 @@ theorem vOrphans_ok (before : Snap) {s' : State} (h : W s') (k : Kind) :
   | true =>
     simp only [List.mem_append, List.mem_map, List.filter_nil, List.map_nil, List.not_mem_nil, or_false] at hv
     rcases hv with (((⟨a, _, rfl⟩ | ⟨a, _, rfl⟩) | ⟨a, _, rfl⟩) | ⟨a, _, rfl⟩) | ⟨a, _, rfl⟩
-    all_goals exact clFor_shutdown _ _ _ hs _ _ (by decide)
+    all_goals first
+      | exact clFor_shutdown _ _ _ hs _ _ (by decide)
+      | (show clCache _ _ k _ _ = KFshutdown
+         unfold clCache
+         rw [hs]
+         exact clFor_shutdown _ _ _ hs _ _ (by decide))
 
 theorem vVlan_ok {s' : State} (h : W s') : vVlan (obsOf s') = [] := by
   unfold vVlan
@@ -894,10 +898,10 @@ theorem noop_when_nothing_aimed {s : State} (o : Op)
 /-! ### one step of model and monitor -/
 
 theorem kindOf_op (o : Op) (r : Bool) :
-    (kindOf (.op o) r).established = none ∧ (kindOf (.op o) r).revived = [] := by
+    (kindOf (.op o) r).established = none ∧ (kindOf (.op o) r).revived = [] ∧ (kindOf (.op o) r).ro = [] := by
   cases o <;> simp only [kindOf] <;> (try split) <;> simp
 
-theorem kind_rev (k : Kind) (h : k.revived = []) : ({ k with revived := [] } : Kind) = k := by
+theorem kind_rev (k : Kind) (h : k.revived = []) (h2 : k.ro = []) : ({ k with revived := [], ro := [] } : Kind) = k := by
   cases k; simp_all
 
 theorem endChecks_shutdown (before after : Snap) (k : Kind) (hs : k.shutdown = true) (e : Nat × Nat × String) :
@@ -1017,8 +1021,9 @@ theorem hitOf_none {s : State} (h : W s) (o : Op) : hitOf (obsOf s) (.op o) = no
 structure Rel (s : State) (mn : Mon) : Prop where
   prev : mn.prev = obsOf s
   rev : mn.revived = []
+  ro : mn.ro = []
 
-theorem Rel_init (radius : Bool) (lt : Nat) : Rel (init radius lt) (initMon radius lt) := ⟨rfl, rfl⟩
+theorem Rel_init (radius : Bool) (lt : Nat) : Rel (init radius lt) (initMon radius lt) := ⟨rfl, rfl, rfl⟩
 
 theorem runBoth_ok (ops : List Op) : ∀ {s : State} {mn : Mon}, W s → Rel s mn →
     ∀ v ∈ runBoth s mn (ops.map OpX.op), Allowed v.2.1 := by
@@ -1027,11 +1032,11 @@ theorem runBoth_ok (ops : List Op) : ∀ {s : State} {mn : Mon}, W s → Rel s m
   | cons o rest ih =>
     intro s mn h hR v hv
     have hstep : (stepX s (.op o)).1 = (step s o).1 := (stepX_of_nil h.stale).1 o
-    simp only [List.map_cons, runBoth, monitorCore, hR.prev, hR.rev, hitOf_none h o, hstep] at hv
+    simp only [List.map_cons, runBoth, monitorCore, hR.prev, hR.rev, hR.ro, hitOf_none h o, hstep] at hv
     rw [List.mem_append] at hv
     rcases hv with hv | hv
-    · rw [kind_rev _ (kindOf_op o _).2] at hv
+    · rw [kind_rev _ (kindOf_op o _).2.1 (kindOf_op o _).2.2] at hv
       exact monitor_step_ok h o v hv
-    · exact ih (W_step h o) ⟨rfl, by simp⟩ v hv
+    · exact ih (W_step h o) ⟨rfl, by simp, rfl⟩ v hv
 
 end Bng.DhcpTerm
